@@ -1610,9 +1610,10 @@ def select__fold_left(self: XPathFunction, context: ta.ContextType = None) \
     if func.arity != 2:
         raise self.error('XPTY0004', "function arity must be 2")
 
-    zero = self.get_argument(context, index=1)
+    # The zero value is a sequence (item()*): it can be empty or have more items
+    zero = [x for x in self[1].select(copy(context))]
 
-    result = zero
+    result: Any = zero[0] if len(zero) == 1 else zero
     for item in self[0].select(context):
         result = func(result, item, context=context)
 
@@ -1635,9 +1636,10 @@ def select__fold_right(self: XPathFunction, context: ta.ContextType = None) \
     if func.arity != 2:
         raise self.error('XPTY0004', "function arity must be 2")
 
-    zero = self.get_argument(context, index=1)
+    # The zero value is a sequence (item()*): it can be empty or have more items
+    zero = [x for x in self[1].select(copy(context))]
 
-    result = zero
+    result: Any = zero[0] if len(zero) == 1 else zero
     sequence = [x for x in self[0].select(context)]
 
     for item in reversed(sequence):
